@@ -87,6 +87,8 @@ pub struct RunOut {
     pub stream_len: usize,
     #[serde(skip)]
     pub alt_variants: Vec<u8>,
+    #[serde(skip)]
+    pub identifier_count: usize,
 }
 
 fn hash_ops(ops: &[Op]) -> u64 {
@@ -114,6 +116,7 @@ pub fn run_ops(ops: &[Op], nslots: u8, run_seed: u64, verbose: bool, probe_strea
         let mut last_counts = [0u64; fault::NKINDS];
         let mut stream_len = 0usize;
         let mut alt_variants: Vec<u8> = Vec::new();
+        let mut identifier_count = 0usize;
         match sim::Sim::new(nslots.max(1) as usize, run_seed, verbose) {
             Err(v) => violation = Some(v),
             Ok(mut s) => {
@@ -140,6 +143,7 @@ pub fn run_ops(ops: &[Op], nslots: u8, run_seed: u64, verbose: bool, probe_strea
                                     v.push(medium::alt_variants(&st, p) as u8);
                                 }
                                 alt_variants = v;
+                                identifier_count = medium::identifier_count(&st);
                             }
                         }
                     }
@@ -200,6 +204,7 @@ pub fn run_ops(ops: &[Op], nslots: u8, run_seed: u64, verbose: bool, probe_strea
         out.last_counts = last_counts;
         out.stream_len = stream_len;
         out.alt_variants = alt_variants;
+        out.identifier_count = identifier_count;
     }
     ledger::reset();
     let _ = simcore::take_panic();
@@ -230,6 +235,7 @@ pub fn run_ops(ops: &[Op], nslots: u8, run_seed: u64, verbose: bool, probe_strea
         last_counts: out.last_counts,
         stream_len: out.stream_len,
         alt_variants: out.alt_variants.iter().copied().collect(),
+        identifier_count: out.identifier_count,
     };
     drop(out);
     copy
@@ -369,6 +375,26 @@ fn enumerate_c11(a: &Args, index: u64, out: &mut impl Write) -> Option<Replay> {
             faults.push(vec![StreamFault { kind: "move".into(), pos, arg: rng.below(n as u64) as i64 }]);
         }
         pos += stride;
+    }
+    // Cross-section inconsistencies: every ordered pair of serialized identifiers, with and without
+    // the declared allocator length following (bounded for larger worlds).
+    let nid = dry.identifier_count;
+    if nid >= 2 {
+        let step = if nid * nid > 400 { (nid * nid / 400).max(1) } else { 1 };
+        let mut k = 0usize;
+        for x in 0..nid {
+            for y in 0..nid {
+                if x == y {
+                    continue;
+                }
+                k += 1;
+                if k % step != 0 {
+                    continue;
+                }
+                faults.push(vec![StreamFault { kind: "alias".into(), pos: x, arg: y as i64 }]);
+                faults.push(vec![StreamFault { kind: "alias".into(), pos: x, arg: -(y as i64) - (nid as i64) * 0 - if y == 0 { nid as i64 } else { 0 } }]);
+            }
+        }
     }
     let mut frng = Rng::new(run_seed, gen::STREAM_FAULT);
     let doubles = if a.thorough { n } else { n / 3 };
@@ -599,6 +625,7 @@ impl RunOut {
             last_counts: self.last_counts,
             stream_len: self.stream_len,
             alt_variants: Vec::new(),
+            identifier_count: 0,
         }
     }
     fn absorb(&mut self, r: &RunOut) {
